@@ -1,4 +1,4 @@
-\* The documented 64-bit layout (local tables after all global tables incl. the VM's): every placement
+\* (Immix block size of the feature immix_smaller_block) The documented 64-bit layout (local tables after all global tables incl. the VM's): every placement
 \* of the VM's per-object metadata (2 x 65 ordered subsets) with the real table shapes.
 SPECIFICATION CSpec
 CONSTANTS
@@ -8,7 +8,7 @@ CONSTANTS
   LogLocalRatio = 1
   MaxOff = 0
   MaxSpecs = 0
-  ImmixBlockLog = 15
+  ImmixBlockLog = 13
   LocalBaseRule = "after_all_globals"
   OffsetRule = "offset_after"
 INVARIANTS
